@@ -90,10 +90,80 @@ def fixes_table():
     return '\n'.join(rows)
 
 
+VERDICT = {
+    'C01': 'PARTIAL: VM instruction kernel + dispatch, runtime hooks, translator op structure',
+    'C02': '**DECIDED** (token list -> operand list -> tree, every length)',
+    'C03': 'PARTIAL: Val -> format value mappers, lowering, out/convert hook; one KNOWN FINDING',
+    'C04': 'PARTIAL: panic-freedom + termination of every extracted function',
+    'C05': 'PARTIAL, narrow: literal layer',
+    'C06': 'PARTIAL: run-time half (+ static narrowing kernel where enabled)',
+    'C08': 'DECIDED modulo std models',
+    'C09': 'PARTIAL, function level: path rewriter + whole AST walker, import hook',
+    'C10': 'PARTIAL: symbol-table layer, function/nested scopes',
+    'C11': 'PARTIAL: position stepping, literal decoding (+ token recognisers where enabled)',
+    'C12': 'PARTIAL, narrow: event sequence handed to xml-rs',
+    'C13': 'DECIDED at collector + hook + verdict + directory walk',
+    'C14': 'DECIDED at hook level',
+    'C15': 'PARTIAL: format value -> Val mappers, include hook',
+    'C18': 'PARTIAL: env tuple, selector miss diagnostics, dispatch',
+    'C20': 'PARTIAL, narrow: position kernel',
+}
+
+
+def summary_table():
+    sys.path.insert(0, os.path.join(V, 'fw'))
+    sys.path.insert(0, os.path.join(V, 'replay'))
+    import claims
+    try:
+        import search
+        st = search.STANDINS
+    except Exception:
+        st = {}
+    en = [x.strip() for x in open(os.path.join(V, 'units/enabled.txt')) if x.strip() and not x.startswith('#')]
+    serves = {}
+    for u in en:
+        t = open(os.path.join(V, 'units/%s.unit.rs' % u)).read()
+        for pid in re.search(r'^//@ serves (.*)$', t, re.M).group(1).split():
+            serves.setdefault(pid, []).append(u)
+    rows = ['| id | verdict | units (Verus) | bounded stand-ins (labelled bounded) |', '|---|---|---|---|']
+    for i in range(1, 21):
+        pid = 'C%02d' % i
+        if pid in claims.CLAIMS:
+            rows.append('| %s | %s | %s | %s |' % (pid, VERDICT.get(pid, 'PARTIAL'), ', '.join('`%s`' % u for u in serves.get(pid, [])),
+                                                  ', '.join(sorted(set(f.__name__.replace('standin_', '') for f in st.get(pid, [])))) or '-'))
+        else:
+            rows.append('| %s | N/A | - | - |' % pid)
+    return '\n'.join(rows)
+
+
+def counts_block():
+    en = [x.strip() for x in open(os.path.join(V, 'units/enabled.txt')) if x.strip() and not x.startswith('#')]
+    nm = 0
+    for u in en:
+        t = open(os.path.join(V, 'units/%s.unit.rs' % u)).read()
+        for inc in re.findall(r'^//@ include (\S+)', t, re.M):
+            try:
+                t += open(os.path.join(V, inc)).read()
+            except OSError:
+                pass
+        nm += len(re.findall(r'^//@\s+mutant ', t, re.M))
+    kf = open(os.path.join(V, 'known_findings.txt')).read()
+    nfix = len(set(re.findall(r'^fixed:\s+property=\S+\s+(\S+)', kf, re.M)))
+    nfind = len(re.findall(r'^finding:', kf, re.M))
+    ob = dis = 0
+    for f in glob.glob(os.path.join(V, 'evidence/C*.json')):
+        e = json.load(open(f))
+        ob += e['coverage'].get('obligations', 0) if isinstance(e.get('coverage'), dict) else 0
+    seeds = glob.glob(os.path.join(V, 'seeded/*/meta.json'))
+    return ('Counts at the time this file was last regenerated: **%d units** enabled, **%d seeded mutants** recorded in them, '
+            '**%d `fix:` commits** in `/repo` (each recorded in `known_findings.txt`), **%d known findings** not repaired, '
+            '**%d seeded changes** from independent agents kept under `seeded/`.' % (len(en), nm, nfix, nfind, len(seeds)))
+
+
 def main():
     p = os.path.join(V, 'DESIGN.md')
     s = open(p).read()
-    for key, fn in (('units', units_table), ('seeds', seeds_table), ('fixes', fixes_table)):
+    for key, fn in (('units', units_table), ('seeds', seeds_table), ('fixes', fixes_table), ('summary', summary_table), ('counts', counts_block)):
         a, b = '<!-- BEGIN:%s -->' % key, '<!-- END:%s -->' % key
         if a in s and b in s:
             s = s[:s.index(a) + len(a)] + '\n' + fn() + '\n' + s[s.index(b):]
